@@ -119,6 +119,7 @@ func main() {
 			}()
 			props.SetStepPolicy(c)
 			ch.Run(c)
+			props.RunImports(c)
 			if *tier == "thorough" {
 				props.Thorough(c, *repo)
 			}
